@@ -849,7 +849,90 @@ fn check_policy_formulas(rng: &mut Rng, rep: &mut Report, n: usize, ctx: &Ctx, i
     }
 }
 
+/// Once per shard (replay index SPECIAL_RETRY + k): twelve records of 24 bytes, a 64-byte buffer, a
+/// policy that always refuses, a source that delivers 40 bytes per call and fails once at its k-th
+/// call (k = 2..=7); the failing call is retried. Every record fits and compaction always makes room,
+/// so the policy must never be asked - also not on the retry after the source error.
+pub const SPECIAL_RETRY: u64 = 4_000_000_200;
+
+fn c09_retry_after_source_error(ctx: &Ctx, rep: &mut Report, fmt: Fmt, k: usize) {
+    let mut data = vec![];
+    for i in 0..12 {
+        match fmt {
+            Fmt::Fasta => data.extend_from_slice(format!(">r{:02}\nACGTACGTACGTACGTAC\n", i).as_bytes()),
+            Fmt::Fastq => data.extend_from_slice(format!("@r{:02}\nACGTACGT\n+\nIIIIIIII\n", i).as_bytes()),
+        }
+    }
+    let input = Rc::new(data);
+    let cfg = Config {
+        cap: 64,
+        policy: PolSpec::RefuseAlways,
+        chunking: Chunking::Fixed(40),
+        interrupts: Interrupts::None,
+    };
+    let fault = Fault {
+        at_call: k,
+        on_seek: false,
+        kind: std::io::ErrorKind::Other,
+        repeat: 1,
+    };
+    rep.evaluations += 1;
+    rep.count("retries_after_a_source_error_with_fitting_records");
+    let mut j = ctx.replay_json(SPECIAL_RETRY + (k as u64) * 2 + (fmt == Fmt::Fastq) as u64);
+    j["scenario"] = json!({"format": fmt.name(), "records": 12, "record_bytes": 24, "capacity": 64, "policy": "refuses always",
+        "source": "40 bytes per read call", "source_error_at_read_call": k});
+    let res = crate::report::guarded(|| {
+        let mut rig = crate::seqmon::make_rig(fmt, input.clone(), &cfg, vec![fault]);
+        let mut limits = 0usize;
+        let mut recs = 0usize;
+        for _ in 0..40 {
+            rig.begin_op();
+            match rig.r().next() {
+                crate::api::Obs::End => break,
+                crate::api::Obs::Rec(_) => recs += 1,
+                crate::api::Obs::Err(e) => {
+                    if matches!(e.obs, crate::refmodel::ErrObs::BufferLimit) {
+                        limits += 1;
+                    }
+                }
+            }
+        }
+        (rig.grow_calls(), limits, recs)
+    });
+    match res {
+        Err(c) => crate::m_basic::caught_violation(rep, &c, "reading with a retried source error", j),
+        Ok((asked, limits, recs)) => {
+            if asked > 0 {
+                rep.violation(
+                    &format!("{}-policy-asked-after-retried-source-error", fmt.name()),
+                    format!(
+                        "after the source error at read call {} was returned and the call retried, the policy was asked {} times (BufferLimit returned {} times, {} of 12 records delivered) although every record needs 24 of the 64 bytes",
+                        k, asked, limits, recs
+                    ),
+                    j,
+                );
+            }
+        }
+    }
+}
+
 pub fn c09(ctx: &Ctx, rep: &mut Report) {
+    if !ctx.miri && ctx.only.map_or(ctx.shard < 6, |o| o >= SPECIAL_RETRY) {
+        let ks: Vec<usize> = match ctx.only {
+            Some(o) => vec![((o - SPECIAL_RETRY) / 2) as usize],
+            None => vec![2 + ctx.shard as usize],
+        };
+        for k in ks {
+            for fmt in [Fmt::Fasta, Fmt::Fastq] {
+                if ctx.only.map_or(true, |o| (o - SPECIAL_RETRY) % 2 == (fmt == Fmt::Fastq) as u64) {
+                    c09_retry_after_source_error(ctx, rep, fmt, k);
+                }
+            }
+        }
+        if ctx.only.is_some() {
+            return;
+        }
+    }
     let w_plain = Weights {
         next: 6,
         owned: 2,
